@@ -1,12 +1,14 @@
 import Driver.Util
 import Sqfs.Model.Obj
 import Sqfs.Model.ObjKinds
+import Sqfs.Model.C19Readers
 /-!
 `sqfsmodel c19 describe <kind>` / `describe-current <kind>`: the per-kind facts of the hook descriptions.
 `sqfsmodel c19 sim` / `sim-current`: heap simulation of the same scenario scripts as `harness/h_c19.c`
 (control lines `copy`, `failcopy k`, `drop x`, `grab x`, `ungrab x`, `dropenv`, `rcs`; every other `<target> …`
 line is an operation that dereferences the target's buffers), printing the same control-line answers.
-`sqfsmodel c19 tbl` / `xwr …`: the state-machine models of `Sqfs.Model.ObjKinds`.
+`sqfsmodel c19 tbl`: the state-machine models of `Sqfs.Model.ObjKinds`.
+`sqfsmodel c19 copystate`: `Sqfs.C19R.drCopy` / `mrCopy` (and the cache invariant) on states dumped from the real objects.
 -/
 namespace Driver.C19
 open Sqfs.Obj
@@ -80,7 +82,8 @@ def probe (h : Heap) (o c : Nat) (before : List Nat) : String :=
     let bufs := (ob.bufs.zip cb.bufs).map fun (a, b) => bufState a b
     let refs := ((ob.refs.zip cb.refs).zip before).map fun ((a, b), n) => refState a b n
     let views := (ob.views.zip cb.views).map fun (a, b) => viewState a b
-    s!"rc={cb.rc} destroy={if cb.destroy then 1 else 0} copy={if cb.copy then 1 else 0} bufs={commaSep bufs} refs={commaSep refs}" ++
+    s!"rc={cb.rc} destroy={if cb.destroy then 1 else 0} copy={if cb.copy then 1 else 0} " ++
+      s!"samehooks={if cb.destroy = ob.destroy ∧ cb.copy = ob.copy then 1 else 0} bufs={commaSep bufs} refs={commaSep refs}" ++
       (if views.isEmpty then "" else s!" self={commaSep views}")
   | _, _ => "dead"
 
@@ -124,10 +127,47 @@ def usesEnv : Kind → Bool
   | .metaReader | .dirReader | .dataReader | .xattrReader => true
   | _ => false
 
+/-- what an object observes of itself and of the objects it owns through deep references, as one token -/
+def viewTok (h : Heap) (id : Nat) : String :=
+  let render (l : List (Option Nat)) : String := "[" ++ commaSep (l.map fun v => match v with | some n => toString n | none => "-") ++ "]"
+  match h.objs id with
+  | none => "dead"
+  | some o =>
+    let own := (view h id).getD []
+    let subs := (o.refs.zip (desc o.kind).refs).filterMap fun (r, a) =>
+      if a = .deep then some (match r with | some y => render ((view h y).getD []) | none => "null") else none
+    "|".intercalate (render own :: subs)
+
+def hashStr (s : String) : Nat := s.foldl (fun a c => (a * 131 + c.toNat) % 4294967291) 7
+
+/-- the model of "an operation of the kind runs on object `id`": it stores through every own slot and internal pointer
+(`writeSlot`), and — chosen by the operation's text, so that twins do the same — replaces one cached/array buffer by a
+fresh one of the same size (`reallocSlot`) or, after the copy, gives one back (`releaseSlot`).  The struct's field slot
+(the last one of every kind but the tables) is never reshaped. -/
+def modelOp (h : Heap) (id : Nat) (text : String) (reshape postCopy : Bool) : Heap :=
+  match h.objs id with
+  | none => touch h id
+  | some o =>
+    let v := hashStr text + 1
+    let n := o.bufs.length + o.views.length
+    let h := (List.range n).foldl (fun h s => writeSlot h id s v) (touch h id)
+    let nres := if o.kind = .fragTable ∨ o.kind = .idTable then o.bufs.length else o.bufs.length - 1
+    if !reshape ∨ nres = 0 then h else
+    let slot := (v / 5) % nres
+    match listGet o.bufs slot with
+    | none => h
+    | some b =>
+      match h.bufs b with
+      | none => h
+      | some bf =>
+        if v % 5 = 3 then reallocSlot h id slot { bf with val := v }
+        else if v % 5 = 4 ∧ postCopy then releaseSlot h id slot
+        else h
+
 def stepLive (D : Kind → CopyDesc) (w : World) (line : String) : World × String :=
   match words line with
   | "scenario" :: _tag :: kname :: _ =>
-    match Kind.ofName (if kname = "comp" then "gzip" else kname) with
+    match Kind.ofName (if kname = "comp" then "gzip" else if kname = "wfile" then "file" else kname) with
     | none => (World.init, "bad-op")
     | some k0 =>
       -- `comp <name> <mode>`: the concrete compressor is the 4th word
@@ -142,6 +182,11 @@ def stepLive (D : Kind → CopyDesc) (w : World) (line : String) : World × Stri
       let (h, o) := construct h k f c
       let (h, t1) := construct h k f c
       let (h, t2) := construct h k f c
+      -- a file opened for writing has a copy hook that refuses (`stdio_copy`: `!readonly` → NULL): as far as `sqfs_copy`
+      -- is concerned the object has no copy hook
+      let h := if kname = "wfile" then [o, t1, t2].foldl (fun (h : Heap) id => match h.objs id with
+          | some ob => { h with objs := upd h.objs id (some { ob with copy := false }) }
+          | none => h) h else h
       (⟨h, k, f, c, usesEnv k, [some o, none, some t1, some t2], true⟩, "scenario")
   | ["shape", b, v, r] =>
     let bm := parseMask b; let vm := parseMask v; let rm := parseMask r
@@ -185,6 +230,10 @@ def stepLive (D : Kind → CopyDesc) (w : World) (line : String) : World × Stri
     match (targetIx t).bind w.obj with
     | some id => let h := sqfsDropF w.h id; ({ w with h := h }, s!"ungrab {t} {rcOf h id}")
     | none => (w, "bad-op")
+  | ["views"] =>
+    let tok (i : Nat) : String := match w.obj i with | some id => viewTok w.h id | none => "-"
+    (w, s!"views o={tok 0} c={tok 1} t1={tok 2} t2={tok 3}")
+  | "dump" :: _ => (w, "dump")
   | ["rcs"] => (w, s!"rcs file={if w.envAlive then rcOf w.h w.file else 0} cmp={if w.envAlive then rcOf w.h w.cmp else 0}")
   | ["dropenv"] =>
     if w.envAlive then
@@ -199,14 +248,15 @@ def stepLive (D : Kind → CopyDesc) (w : World) (line : String) : World × Stri
       | some cr => cr.name
       | none => if liveCount h = 0 then "ok" else "leak"
     (World.init, s!"exit {cls}")
-  | t :: op :: _ =>
+  | t :: op :: rest =>
     match (targetIx t).bind w.obj with
     | some id =>
-      let h := touch w.h id
+      let marked := op.endsWith "!"
+      let h := modelOp w.h id (" ".intercalate ((if marked then (op.dropEnd 1).toString else op) :: rest)) (!marked) ((w.obj 1).isSome)
       -- an operation marked `!` indexes the cached buffers up to the size the kind believes they have (kinds that
       -- record the allocated size next to the pointer never do)
       let h := match h.objs id with
-        | some o => if (D o.kind).capAware || !op.endsWith "!" then h else
+        | some o => if (D o.kind).capAware || !marked then h else
             (List.range o.bufs.length).foldl (fun h s => indexSlot h id s (believedSize - 1)) h
         | none => h
       ({ w with h := h }, match h.crash with | some cr => s!"crash {cr.name}" | none => "op")
@@ -220,6 +270,64 @@ def step (D : Kind → CopyDesc) (w : World) (line : String) : World × String :
   | some cr, ["end"] => let _ := cr; stepLive D w line
   | some cr, _ => (w, s!"crash {cr.name}")
   | none, _ => stepLive D w line
+
+/-! ### `drcopy` / `mrcopy`: the state part of `data_reader_copy` / `meta_reader_copy` applied to a state dumped from the
+real original (`dump o …` of `harness/h_c19.c`); the answer is the dump line the real copy must produce -/
+
+def kvGet (ws : List String) (k : String) : Option String :=
+  ws.findSome? fun w => match w.splitOn "=" with
+    | [k', v] => if k' = k then some v else none
+    | _ => none
+
+def kvNat (ws : List String) (k : String) : Option Nat := (kvGet ws k).bind String.toNat?
+
+/-- `N` = NULL pointer -/
+def parseBlk (s : String) (sz : Nat) : Option (Option (List UInt8 × Nat)) :=
+  if s = "N" then some none else (fromHex s).map fun b => some (b, sz)
+
+def parseTbl (s : String) : Option (List (Nat × Nat)) :=
+  if s = "-" then some [] else
+  (s.splitOn ",").mapM fun e => match e.splitOn ":" with
+    | [a, b] => do let x ← a.toNat?; let y ← b.toNat?; pure (x, y)
+    | _ => none
+
+def blkTok : Option (List UInt8 × Nat) → String
+  | none => "N"
+  | some (b, _) => toHexTok b
+
+def drLine (name : String) (d : Sqfs.DataReader.DR) : String :=
+  let sz (o : Option (List UInt8 × Nat)) (dflt : Nat) : Nat := match o with | some (_, n) => n | none => dflt
+  let tbl := if d.tbl.isEmpty then "-" else commaSep (d.tbl.map fun (a, b) => s!"{a}:{b}")
+  s!"dump {name} data bs={d.blockSize} dsz={sz d.dataBlock 0} cur={d.currentBlock} word={d.currentWord} " ++
+  s!"fsz={sz d.fragBlock 0} fidx={d.currentFrag} tbl={tbl} dblk={blkTok d.dataBlock} fblk={blkTok d.fragBlock}"
+
+/-- `*_blk_size` of a NULL cache slot is a stale number that the struct `memcpy` carries over: kept outside `DR` -/
+def copyStep (line : String) : String :=
+  match words line with
+  | "dump" :: _ :: "data" :: ws =>
+    match kvNat ws "bs", kvNat ws "dsz", kvNat ws "cur", kvNat ws "word", kvNat ws "fsz", kvNat ws "fidx",
+          (kvGet ws "tbl").bind parseTbl, kvGet ws "dblk", kvGet ws "fblk" with
+    | some bs, some dsz, some cur, some word, some fsz, some fidx, some tbl, some db, some fb =>
+      match parseBlk db dsz, parseBlk fb fsz with
+      | some dblk, some fblk =>
+        let d : Sqfs.DataReader.DR := { blockSize := bs, tbl := tbl, dataBlock := dblk, currentBlock := cur, currentWord := word,
+                                         fragBlock := fblk, currentFrag := fidx }
+        let c := Sqfs.C19R.drCopy d
+        let szOf (o : Option (List UInt8 × Nat)) (stale : Nat) : Nat := match o with | some (_, n) => n | none => stale
+        let tblS := if c.tbl.isEmpty then "-" else commaSep (c.tbl.map fun (a, b) => s!"{a}:{b}")
+        s!"dump c data bs={c.blockSize} dsz={szOf c.dataBlock dsz} cur={c.currentBlock} word={c.currentWord} " ++
+        s!"fsz={szOf c.fragBlock fsz} fidx={c.currentFrag} tbl={tblS} dblk={blkTok c.dataBlock} fblk={blkTok c.fragBlock} " ++
+        s!"inv={if Sqfs.C19R.cacheInv d then 1 else 0}"
+      | _, _ => "bad-op"
+    | _, _, _, _, _, _, _, _, _ => "bad-op"
+  | "dump" :: _ :: "meta" :: ws =>
+    match kvNat ws "start", kvNat ws "limit", kvNat ws "tag", kvNat ws "next", kvNat ws "used", kvNat ws "off", (kvGet ws "data").bind fromHex with
+    | some st, some li, some tag, some nx, some us, some off, some data =>
+      let m : Sqfs.MetaReader.MR := { start := st, limit := li, tag := tag, nextBlock := nx, dataUsed := us, offset := off, data := data }
+      let c := Sqfs.C19R.mrCopy m
+      s!"dump c meta start={c.start} limit={c.limit} tag={c.tag} next={c.nextBlock} used={c.dataUsed} off={c.offset} data={toHexTok c.data} inv=1"
+    | _, _, _, _, _, _, _ => "bad-op"
+  | _ => "bad-op"
 
 def run (args : List String) : IO Unit := do
   let out ← IO.getStdout
@@ -236,6 +344,7 @@ def run (args : List String) : IO Unit := do
     let cur := (ks.splitOn ",").filterMap Kind.ofName
     stateLoop (← IO.getStdin) out (step fun k => if cur.contains k then descCurrent k else desc k) World.init
   | ["tbl"] => stateLoop (← IO.getStdin) out Kinds.tblStep Kinds.TblWorld.init
+  | ["copystate"] => lineLoop (← IO.getStdin) out copyStep
   | _ => stateLoop (← IO.getStdin) out (step desc) World.init
 
 end Driver.C19
